@@ -15,11 +15,47 @@ from ..result import RuleResult, Violation
 RAW_REC, LP_REC = "rawlpdata", "ILLlpdata"
 
 
+def _excludes_dropped(prog, f, dom, succ, bid, v):
+    from ..cond import atoms, SWAP
+    preds = {}
+    for a, ss in succ.items():
+        for x in ss:
+            preds.setdefault(x, set()).add(a)
+    for d in dom.get(bid, ()):
+        blk = f.blocks[d]
+        c = blk.get("c")
+        if c is None:
+            continue
+        ss = prog.live_succs(f, blk)
+        if blk.get("t") == "SwitchStmt":
+            if "rowsense" in show(c):
+                for s_ in ss:
+                    if s_ is None:
+                        continue
+                    lab = f.blocks[s_].get("l")
+                    if lab and lab[0] == "case" and lab[1] != ord("N") and (s_ == bid or s_ in dom.get(bid, ())):
+                        return True
+            continue
+        if len(ss) != 2:
+            continue
+        for idx, s_ in enumerate(ss):
+            if s_ is None or not (s_ == bid or s_ in dom.get(bid, ())) or preds.get(s_, set()) != {d}:
+                continue
+            for l, op, r in atoms(c, idx == 0):
+                for a, b_, o in ((l, r, op), (r, l, SWAP[op])):
+                    if is_var(a, name=v, kind="l"):
+                        cb = const_of(b_)
+                        if cb is not None and ((o == "!=" and cb == -1) or (o == ">=" and cb >= 0) or (o == ">" and cb >= -1)):
+                            return True
+    return False
+
+
 def run(prog, unit="rawlp_mpq.c", rule="R-RAWIDX"):
     res = RuleResult(rule, "in the raw-LP conversion no array of the LP is subscripted with a raw index and no array of the raw LP with an index "
                            "loaded from colindex[] / rowindex[]")
     nsub = 0
     nfun = 0
+    nmapped = [0]
     for f in sorted(prog.funcs.values(), key=lambda x: x.key):
         if unit not in f.unit or f.live is None:
             continue
@@ -64,6 +100,9 @@ def run(prog, unit="rawlp_mpq.c", rule="R-RAWIDX"):
         if not any(v == "lp" for v in cls.values()) and not loopcls:
             continue
         nfun += 1
+
+        def loop_typed(bid, v):
+            return any(bid in loops[h] and h in loopcls and loopcls[h][0] == v for h in loops)
         for b, i, e in f.elements():
             if e[0] != "S":
                 continue
@@ -83,6 +122,18 @@ def run(prog, unit="rawlp_mpq.c", rule="R-RAWIDX"):
             nsub += 1
             res.obligations += 1
             if ic == side:
+                # a mapped index is -1 for a dropped item (unused column, N row): the subscript needs a test that excludes it - a comparison
+                # of the index itself, or a case of a switch on the raw item's kind (raw->rowsense[i]) other than 'N'
+                v = strip(t[2])[2]
+                if side == "lp" and cls.get(v) == "lp" and not loop_typed(b["id"], v):
+                    nmapped[0] += 1
+                    if not _excludes_dropped(prog, f, dom, succ, b["id"], v):
+                        res.nontrivial += 1
+                        res.violations.append(Violation(rule, "%s|%s[%s]: mapped index used without excluding -1" % (f.name.replace("mpq_", ""), fl[-1].split("::")[1], v),
+                                                        f.name, short_loc(e[2]),
+                                                        "%s[%s]: %s is loaded from the raw-to-LP map, which holds -1 for dropped items (unused columns, N rows); no test of %s "
+                                                        "(!= -1, >= 0) and no case of a switch on the raw row's sense other than 'N' dominates this subscript: for a "
+                                                        "dropped item the access lands before the array" % (show(t[1])[:40], v, v, v)))
                 continue
             res.nontrivial += 1
             res.violations.append(Violation(rule, "%s|%s[%s]: %s index into an array of the %s" % (f.name.replace("mpq_", ""), fl[-1].split("::")[1], strip(t[2])[2], ic,
@@ -90,6 +141,7 @@ def run(prog, unit="rawlp_mpq.c", rule="R-RAWIDX"):
                                             "%s is an array of the %s but is subscripted with %s, which is %s: the two numberings differ as soon as an "
                                             "unused row or column has been dropped" % (show(t[1])[:40], "raw LP" if side == "raw" else "converted LP", strip(t[2])[2],
                                                                                         "a raw index (bounded by a dimension of the raw LP)" if ic == "raw" else "loaded from the raw-to-LP map")))
+    res.counts["subscripts_by_a_mapped_index"] = nmapped[0]
     res.counts["typed_subscripts"] = nsub
     res.counts["conversion_functions"] = nfun
     res.floor("typed subscripts in the conversion functions", nsub, 15)
